@@ -7,7 +7,7 @@ import random
 from fractions import Fraction
 import mpmath
 from mpmath import mp, mpf, mpc
-from vlib.core import Check, run_cases, run_one, check_process_reports, crash_key, render, NCPU
+from vlib.core import Check, run_cases, run_one, check_process_reports, crash_key, resource_crash, render, NCPU
 from vlib import gen, oracle_e, shrink
 from vlib.gen import I, FR, CX, S, K, X, Y, Z
 from . import _value
@@ -101,6 +101,8 @@ def _deriv_judge_inner(args):
                     f0 = f(x0)
                     if oracle_e.kind_of(f0) != 'finite':
                         continue
+                    if abs(f0) > mpf(10) ** 250 or (f0 != 0 and abs(f0) < mpf(10) ** -250):
+                        continue        # a value of astronomical magnitude: the difference quotient carries no information
                     d1 = mp.diff(f, x0, h=mpf(10) ** -18)
                     d2 = mp.diff(f, x0, h=mpf(10) ** -14)
                     rv = oracle_e.Evaluator(env).ev(tr)
@@ -196,6 +198,9 @@ class C(Check):
                 continue
             self.note_asserts(r)
             prog = [render(s) for s in it['stmts']]
+            if r.status == 'crashed' and resource_crash(r):
+                self.count('resource-limit (astronomically large integer)')
+                continue
             if r.status == 'crashed':
                 self.violation(dict(crash_key(r), label='diff'), dict(program=prog, crash=r.crash, config='asan'))
                 continue
